@@ -85,3 +85,47 @@ Qed.
     then rewinds to the ABSOLUTE start before staging: what it stages and
     names is the whole underlying stream. *)
 Definition reader_after_absolute_rewind (whole : bytes) (k : nat) : script := reader_at whole 0.
+
+(** ** A failing input, whatever error value it fails with
+
+    The model's script carries the error as a number; nothing in [tstep]
+    inspects it.  [relabel g] replaces every error value of a script: the
+    bytes delivered and the point of failure are the same. *)
+Definition relabel_stat (g : N -> N) (st : rstat) : rstat :=
+  match st with RFail e => RFail (g e) | x => x end.
+
+Definition relabel (g : N -> N) (s : script) : script :=
+  map (fun u => (fst u, relabel_stat g (snd u))) s.
+
+Lemma drain_relabel g s : drain (relabel g s) = (fst (drain s), relabel_stat g (snd (drain s))).
+Proof.
+  induction s as [|[c st] r IH]; [reflexivity|].
+  cbn [relabel map fst snd]. destruct st as [| |e]; cbn [relabel_stat drain].
+  - fold (relabel g r). rewrite IH. destruct (drain r). reflexivity.
+  - reflexivity.
+  - reflexivity.
+Qed.
+
+Theorem fs_failed_input_any_error_value : forall D objs0 inputs sched tid t s0 g r e,
+  wf_objs D objs0 ->
+  nth_error (sthr (run D true fs_commit_skel std_key_len std_key_ranges
+                       (init_sys fs_create_skel objs0 inputs) sched)) tid = Some t ->
+  nth_error inputs tid = Some (relabel g s0) ->
+  res t = Some r ->
+  snd (drain s0) = RFail e ->
+  (forall k, r <> ROk k) /\ committed t = false /\
+  lookup_nat tid (tmp (sfs (run D true fs_commit_skel std_key_len std_key_ranges
+                                (init_sys fs_create_skel objs0 inputs) sched))) = None.
+Proof.
+  intros D objs0 inputs sched tid t s0 g r e Hwf Ht Hin Hr He.
+  assert (Hd : snd (drain (relabel g s0)) = RFail (g e)) by (rewrite drain_relabel; cbn [snd]; now rewrite He).
+  destruct (fs_input_failure_is_error D objs0 inputs sched tid t _ r (g e) Hwf Ht Hin Hr Hd) as [A B].
+  split; [exact A|]. split; [exact B|].
+  now destruct (fs_create_result D objs0 inputs sched tid t _ r Hwf Ht Hin Hr) as (X & _ & _).
+Qed.
+
+(** NOT the deployed code: a reader type wrapped around the caller's reader
+    that maps ONE error value to end-of-stream (e.g. io.ReadFull's
+    io.ErrUnexpectedEOF taken for a short last block). *)
+Definition eof_wrapper (bad : N) (s : script) : script :=
+  map (fun u => (fst u, match snd u with RFail e => if e =? bad then REof else RFail e | x => x end)) s.
